@@ -254,6 +254,14 @@ func genC17(g *Gen, idx int) *Plan {
 		// the scripted gateway must not answer the client's PUBREC itself in this scenario
 		p.SGW.Rules = append(p.SGW.Rules, SGWRule{On: "PUBREC", Act: "ignore"})
 	}
+	if g.Bool(0.12) {
+		// the gateway never acknowledges a PUBLISH and disconnects the client while the call waits:
+		// the call must not report success
+		p.Family = "C17-gw-disconnect"
+		p.Cfg.SN.Rules = nil
+		p.SGW.Rules = []SGWRule{{On: "PUBLISH", Act: "ignore"}}
+		p.SGW.Ops = []PeerOp{{AtMs: g.Range(300, 2500), Pkt: refsn.Pkt{Type: refsn.DISCONNECT}}}
+	}
 	p.Cfg.HorizonMs = 4000 + int64(n+4)*(int64(budget)+2)*cp.RetryDelayMs*2
 	return p
 }
